@@ -5,6 +5,7 @@ import IrVerif.Model.SymExpr
 import IrVerif.Lemmas.SymExprArith
 import IrVerif.Lemmas.SymExprSound
 import IrVerif.Lemmas.SymExprPrint
+import IrVerif.Lemmas.SymExprText
 namespace IrVerif.SymExpr
 
 /-- **C16_partial**: binding some symbols first and the rest later gives the value of binding
@@ -185,5 +186,34 @@ example : pp (.un .neg (.bin .pow (.sym "x") (.num 2))) = [.op .minus, .ident "x
   decide
 example : pp (.bin .pow (.un .neg (.sym "x")) (.num 2))
     = [.lparen, .op .minus, .ident "x", .rparen, .op .dstar, .num 2] := by decide
+
+
+/-- **C16_print_parse_text**: the same at the level of text, through the tokenizer and
+    `parse_symbolic_expression` itself: for every expression whose symbol names are identifier
+    texts (a letter or `_`, then letters, digits, `_`, `.`), the printed text (tokens separated by
+    single spaces) parses back to `norm e`, which evaluates like `e` under every binding. -/
+theorem C16_print_parse_text (e : Expr) (h : ∀ s ∈ free e, IdentStr s) :
+    parseChars (render (pp e)) = some (norm e) ∧ ∀ env : Env, eval env (norm e) = eval env e :=
+  ⟨parseChars_render_pp e h, fun env => eval_norm env e⟩
+
+/-- the hypothesis is satisfiable by the names the code base uses (dots included) -/
+example : IdentStr "a.b_1" := ⟨'a', ['.', 'b', '_', '1'], by decide, by decide, by decide⟩
+example : parseChars (render (pp (.un .neg (.bin .pow (.sym "N") (.num 2)))))
+    = some (.un .neg (.bin .pow (.sym "N") (.num 2))) :=
+  (C16_print_parse_text _ (by
+    intro s hs
+    simp [free] at hs
+    subst hs
+    exact ⟨'N', [], by decide, by decide, by decide⟩)).1
+
+/-- **C16_fast_path**: the `isidentifier` shortcut of `parse_symbolic_expression` never changes the
+    result: on every text it returns what tokenizing and parsing would return. -/
+theorem C16_fast_path (cs : List Char) : parseChars cs = (tokenize cs).bind parseTokens :=
+  parseChars_eq cs
+
+/-- **C16_tokenize_render**: the tokenizer reads back every token list written with single spaces
+    (numbers in decimal, identifier tokens carrying identifier texts). -/
+theorem C16_tokenize_render (ts : List Tok) (h : ∀ t ∈ ts, WfTok t) : tokenize (render ts) = some ts :=
+  tokenize_render ts h
 
 end IrVerif.SymExpr
